@@ -81,6 +81,19 @@ CLAIMS.update({
    technique='contract-based deductive verification: concrete-control / symbolic-data execution (cc-sym) of the real classifier at every module of every size',
    design='4/C11'),
 })
+CLAIMS.update({
+ 'C07': dict(
+   category='proof',
+   text='Deductive, for byte strings of ARBITRARY length and content (symbolic array): is_kanji proved by loop invariant against the Shift JIS double-byte '
+        'validity predicate (lead and trail byte); is_alphanumeric from the parse tree of the real compiled pattern (45-character set compared with ISO); '
+        'find_mode returns the first applicable of numeric/alphanumeric/kanji/byte, never hanzi; make_segment for every requested mode: used as given iff '
+        'the content is representable (numeric, alphanumeric, byte, kanji, hanzi - packing loops cut at loop contracts), refused with ValueError otherwise, '
+        'no IndexError; normalize_mode spellings; mode/version availability (ISO Table 2) in is_mode_supported and encode.',
+   note='Trusted: pyvc with explicit quantifier instantiation + z3; axioms for bytes.isdigit and character-class regular expressions; spec/modes.py; '
+        'text -> bytes conversion by CPython codecs is uninterpreted (any byte string may result).',
+   technique='contract-based deductive verification: AST symbolic execution over symbolic byte arrays, loop invariants, explicit instantiation, z3',
+   design='4/C07'),
+})
 NOT_YET = {
 }
 ALL = ['C%02d' % i for i in range(1, 17)]
